@@ -72,11 +72,11 @@ def _snapshot():
                     droppable.add(id(u))
                     changed = True
         for u in kids:
+            if isinstance(u, ugn.BasicOpUGen) and id(u) in droppable:
+                feats['dead_ops'] = True
             if isinstance(u, ugn.BinaryOpUGen) and len(u.inputs) == 2:
                 a, b = u.inputs
                 if a is b and isinstance(a, ugn.UGen):
-                    if id(u) in droppable:
-                        feats['dead_binop_same_input'] = True
                     if u.operator == '-' and isinstance(a, ugn.UnaryOpUGen) \
                             and a.operator == 'neg' \
                             and users.get(id(a)) == {id(u)}:
@@ -145,8 +145,8 @@ def check_program(prog, name='c01'):
         return fails, info
     if feats.get('sub_same_neg'):
         dkey = 'C01.denotation:optimize-sub-a-is-b'
-    elif feats.get('dead_binop_same_input'):
-        dkey = 'C01.denotation:dce-reoptimizes-input-used-twice'
+    elif feats.get('dead_ops'):
+        dkey = 'C01.denotation:dead-code-elimination-breaks-live-units'
     else:
         dkey = None
     try:
